@@ -72,6 +72,8 @@ def normalise(toks, user_names):
             out.append(head.upper() + sep + kind)
         else:
             out.append(t)
+    # explicit UNIT= (first item) and FMT= (second item) of an I/O control list are a documented canonicalisation
+    out = _drop_io_keywords(out)
     # empty dummy-argument parentheses of a SUBROUTINE statement are optional
     res = []
     i = 0
@@ -88,6 +90,41 @@ def normalise(toks, user_names):
         res.append(out[i])
         i += 1
     return res
+
+
+IO_KW = ("READ", "WRITE", "FLUSH", "WAIT", "BACKSPACE", "ENDFILE", "REWIND", "OPEN", "CLOSE", "INQUIRE")
+
+
+def _drop_io_keywords(toks):
+    out = []
+    i = 0
+    n = len(toks)
+    while i < n:
+        out.append(toks[i])
+        if toks[i] in IO_KW and i + 1 < n and toks[i + 1] == "(":
+            out.append("(")
+            i += 2
+            depth, item, start = 1, 0, True
+            while i < n and depth > 0:
+                t = toks[i]
+                if start and depth == 1 and i + 1 < n and toks[i + 1] == "=" and \
+                        ((item == 0 and t == "UNIT") or (item == 1 and t == "FMT")):
+                    i += 2
+                    start = False
+                    continue
+                start = False
+                if t == "(":
+                    depth += 1
+                elif t == ")":
+                    depth -= 1
+                elif t == "," and depth == 1:
+                    item += 1
+                    start = True
+                out.append(t)
+                i += 1
+            continue
+        i += 1
+    return out
 
 
 def diff(a, b):
